@@ -77,6 +77,20 @@ func (c *Ctx) mustFunc(rule, short, name string) *ssa.Function {
 	return fn
 }
 
+// mustFn resolves a function that may be written as a method of typ or as a plain function of the package (a method
+// that does not use its receiver is routinely turned into a function and back). Only for rules that do not address the
+// parameters by position.
+func (c *Ctx) mustFn(rule, short, typ, name string) *ssa.Function {
+	if fn := c.P.Method(short, typ, name); fn != nil && len(fn.Blocks) > 0 {
+		return fn
+	}
+	if fn := c.P.Func(short, name); fn != nil && len(fn.Blocks) > 0 {
+		return fn
+	}
+	c.R.Fail(rule, "anchor:"+short+"."+typ+"."+name, "-", "anchor "+short+"."+name+" (method of "+typ+" or plain function) resolves", "anchor does not resolve: the function is gone or renamed; the rule cannot be decided")
+	return nil
+}
+
 func (c *Ctx) mustMethod(rule, short, typ, name string) *ssa.Function {
 	fn := c.P.Method(short, typ, name)
 	if fn == nil || len(fn.Blocks) == 0 {
